@@ -117,6 +117,20 @@ func (p *C03) Gen(seed uint64, i int, tier string) *scen.Scenario {
 			newLogger()
 			continue
 		}
+		if r.Chance(1, 12) && len(loggers) < 5 {
+			// WithWriter / WithErrorWriter: a child that carries the writer
+			id := nextID
+			nextID++
+			kind := scen.Pick(r, []string{"writer", "errwriter"})
+			w, wk := wop(pickW())
+			sc.Setup = append(sc.Setup, scen.Op{Op: "with", L: scen.Pick(r, loggers), R: id, Kind: kind, W: w, WK: wk})
+			m := model.NewWriters()
+			m.Apply(kind, w, 0)
+			ws[id] = m
+			loggers = append(loggers, id)
+			probe(id)
+			continue
+		}
 		l := scen.Pick(r, loggers)
 		m := ws[l]
 		kind := scen.Pick(r, []string{"writer", "add_writer", "add_writer", "remove_writer", "remove_writer", "errwriter", "add_errwriter", "add_errwriter", "remove_errwriter", "remove_errwriter",
